@@ -9,7 +9,7 @@ import (
 // ---- constructs added after the instrumenter review --------------------------
 
 // cross-file / out-of-order initialisation: derived depends on base, declared
-// later; pairA, pairB come from one call; an init function fills a registry.
+// later; pairA, pairB come from one call; an init function fills a syncRegistry.
 var derived = base * 2
 var base = seedValue()
 var pairA, pairB = twoValues()
@@ -189,4 +189,51 @@ func RangeAssign() (int, bool) {
 	}
 	v, ok := (<-c)
 	return last + v, ok
+}
+
+// ---- sync.Pool, sync.Map, sync.OnceValue, zero-reset of any type -----------------
+
+type buffer struct{ data []int }
+
+var bufPool = sync.Pool{New: func() any { return &buffer{} }}
+var syncRegistry sync.Map
+var lastBuf atomic.Pointer[buffer]
+var answer = sync.OnceValue(func() int { return 42 })
+
+// PoolAndMap: n goroutines take a buffer from the pool, use it, put it back,
+// and register themselves; returns the number of registered keys, the sum of
+// the registered values and whether any recycled buffer still held data.
+func PoolAndMap(n int) (int, int, bool) {
+	var wg sync.WaitGroup
+	var dirty atomic.Bool
+	for i := 1; i <= n; i++ {
+		i := i
+		wg.Add(1)
+		go func() {
+			defer wg.Done()
+			b := bufPool.Get().(*buffer)
+			if len(b.data) != 0 {
+				dirty.Store(true)
+			}
+			b.data = append(b.data, i)
+			syncRegistry.Store(i, answer()+i)
+			b.data = b.data[:0]
+			lastBuf.Store(b)
+			bufPool.Put(b)
+		}()
+	}
+	wg.Wait()
+	keys, sum := 0, 0
+	syncRegistry.Range(func(k, v any) bool { keys++; sum += v.(int); return true })
+	if _, loaded := syncRegistry.LoadOrStore(1, 0); !loaded {
+		sum = -1
+	}
+	return keys, sum, dirty.Load()
+}
+
+// ColdGlobals reports whether the globals are in their initial state.
+func ColdGlobals() bool {
+	n := 0
+	syncRegistry.Range(func(k, v any) bool { n++; return true })
+	return n == 0 && lastBuf.Load() == nil
 }
